@@ -139,7 +139,7 @@ pub fn decode(ctx: &Ctx, tape: &[u32]) -> FaultCase {
         case.steered.push("gen.c15.limit_zero".into());
     }
     let (full, nolimit) = (query.print(Dialect::Rl), query.print_opts(Dialect::Rl, true, false));
-    case.sel_unlimited = Some(nolimit.clone());
+    case.sel_unlimited = Some(query.print_unlimited(Dialect::Rl));
     match kind {
         StmtKind::Select => (case.sql, case.sql_nolimit) = (full, nolimit),
         StmtKind::Copy => {
